@@ -157,8 +157,13 @@ def check_combo(chk, c, seed_, recover):
                 p.value = p.value * (1 + 0.1 * (1 if rs.random_sample() < 0.5 else -1))
             scheme2 = Scheme(model=model, parameters=start, data=data, maximum_number_function_evaluations=60)
             res2 = optimize(scheme2, verbose=False, raise_exception=True)
-            for lab in labels:
-                a, b = res2.optimized_parameters.get(lab).value, true.get(lab).value
+            # the rates of a decay scheme with free amplitudes are identifiable only up to a permutation (the concentrations span the same
+            # space when two rates are exchanged): the rates are compared as a multiset, everything else label by label
+            got_v = {lab: res2.optimized_parameters.get(lab).value for lab in labels}
+            want_v = {lab: true.get(lab).value for lab in labels}
+            rates = sorted(lab for lab in labels if lab.startswith("k."))
+            for lab, a, b in [(lab, got_v[lab], want_v[lab]) for lab in labels if lab not in rates] + \
+                             [("rates (sorted)", a, b) for a, b in zip(sorted(got_v[r] for r in rates), sorted(want_v[r] for r in rates))]:
                 if abs(a - b) > 1e-4 * max(1.0, abs(b)):
                     chk.violation(f"Combos[not recovered from 10% perturbation]: {key_c}", f"parameter {lab}: truth {b}, recovered {a}", rep)
                     return
